@@ -22,6 +22,7 @@ import (
 	"crypto/ecdsa"
 	"crypto/elliptic"
 	"crypto/rand"
+	"crypto/rsa"
 	"crypto/tls"
 	"crypto/x509"
 	"crypto/x509/pkix"
@@ -226,8 +227,37 @@ type env struct {
 	originPool *x509.CertPool // what the proxy's transport trusts (the harness origin's certificate)
 }
 
-func newEnv() (*env, error) {
+// authorityFiles: the parent generates the MITM CA once (mitm.NewAuthority) and hands it to the worker
+// processes through two files, which saves one RSA key generation per worker start.
+func writeAuthority(dir string) error {
 	ca, priv, err := mitm.NewAuthority("c05.verif.proxy", "C05 Verif Authority", 2*time.Hour)
+	if err != nil {
+		return err
+	}
+	if err := os.WriteFile(filepath.Join(dir, "ca.der"), ca.Raw, 0o600); err != nil {
+		return err
+	}
+	return os.WriteFile(filepath.Join(dir, "ca.key"), x509.MarshalPKCS1PrivateKey(priv), 0o600)
+}
+
+func loadAuthority() (*x509.Certificate, *rsa.PrivateKey, error) {
+	if dir := os.Getenv("VERIF_C05_CA"); dir != "" {
+		der, err1 := os.ReadFile(filepath.Join(dir, "ca.der"))
+		kb, err2 := os.ReadFile(filepath.Join(dir, "ca.key"))
+		if err1 == nil && err2 == nil {
+			ca, err := x509.ParseCertificate(der)
+			if err != nil {
+				return nil, nil, err
+			}
+			priv, err := x509.ParsePKCS1PrivateKey(kb)
+			return ca, priv, err
+		}
+	}
+	return mitm.NewAuthority("c05.verif.proxy", "C05 Verif Authority", 2*time.Hour)
+}
+
+func newEnv() (*env, error) {
+	ca, priv, err := loadAuthority()
 	if err != nil {
 		return nil, err
 	}
@@ -1108,7 +1138,7 @@ func workerMain(hs []History, shard, n int) {
 		if only >= 0 {
 			// Attribution run: if a proxy goroutine is panicking, let it take the process down before the
 			// outcome is reported as a clean completion.
-			time.Sleep(250 * time.Millisecond)
+			time.Sleep(100 * time.Millisecond)
 		}
 		put(line{Outcome: o})
 	}
@@ -1217,6 +1247,12 @@ func main() {
 	}
 	dir := filepath.Join(lib.Root, ".build", "c05", "shards-"+tier)
 	os.RemoveAll(dir)
+	os.MkdirAll(dir, 0o755)
+	if err := writeAuthority(dir); err != nil {
+		fmt.Fprintln(os.Stderr, "C05: cannot create the MITM CA:", err)
+		os.Exit(2)
+	}
+	os.Setenv("VERIF_C05_CA", dir)
 	files, errs, outs := lib.RunShards(nshards, dir)
 
 	// Collect. A worker that died is resumed after the history it died in; because a panicking proxy goroutine
